@@ -129,7 +129,7 @@ func c05Gen(r *hx.R, tier string, out *hx.Out) []string {
 				}
 				ms = append(ms, strings.ReplaceAll(m.Line(), " ", ";"))
 			}
-			ls = append(ls, fmt.Sprintf("rawstream limit=%d chunk=%d cseed=%d reuse=%d tail=%s msgs=%s", 1<<30, r.Intn(4), r.Intn(1000), r.Intn(2), hx.Hex(r.AnyBytes(r.Pick(0, 0, 1, 3, 5))), strings.Join(ms, "|")))
+			ls = append(ls, fmt.Sprintf("rawstream limit=%d chunk=%d cseed=%d reuse=%d tail=%s msgs=%s", 1<<20, r.Intn(4), r.Intn(1000), r.Intn(2), hx.Hex(r.AnyBytes(r.Pick(0, 0, 1, 3, 5))), strings.Join(ms, "|")))
 		default: // unpack of arbitrary / mutated bytes
 			ls = append(ls, c05GenUnpack(r))
 		}
@@ -140,7 +140,7 @@ func c05Gen(r *hx.R, tier string, out *hx.Out) []string {
 // c05GenUnpack produces bytes for Unpack: a valid frame, a mutated valid frame, a truncation,
 // or random bytes, with assorted read limits.
 func c05GenUnpack(r *hx.R) string {
-	limit := r.Pick(1<<30, 1<<30, 16, 64, 1024)
+	limit := r.Pick(1<<20, 1<<20, 16, 64, 1024) // a garbage length prefix below the limit is really allocated: keep it small
 	var b []byte
 	m := genMsg(r, true)
 	if len(m.Body) > 200 {
